@@ -207,9 +207,12 @@ var ctxPool = []model.Shared{
 	{Name: "F", Version: 9, Symbols: []string{"f1", "f2"}},
 	{Name: "F", Version: 10, Symbols: []string{"f1", "f2", "f3", "f4"}},
 	{Name: "F", Version: 100, Symbols: []string{"f1", "f2", "f3", "f4", "f5", "f6"}},
+	// names and versions whose concatenation collides ("T1"+"12" == "T11"+"2")
+	{Name: "T1", Version: 12, Symbols: []string{"p1", "p2", "p3"}},
+	{Name: "T11", Version: 2, Symbols: []string{"q1", "q2", "q3", "q4", "q5"}},
 }
 
-var ctxLocalTexts = []string{"x", "y", "zed", "dup", "a1", "name", "q_1", "$ion", "hello", "w", "a b", "é", "k9", "symbols", "imports", "max_id", "version"}
+var ctxLocalTexts = []string{"x", "y", "zed", "dup", "a1", "name", "q_1", "$ion", "hello", "w", "a b", "é", "k9", "symbols", "imports", "max_id", "version", "$ion_symbol_table", "$ion_shared_symbol_table"}
 
 func poolVersions(name string) []int {
 	var out []int
@@ -237,7 +240,7 @@ func genCatalog(r *prng.Rand) (*model.Catalog, string) {
 	}
 	cat := &model.Catalog{}
 	var desc []string
-	for _, name := range []string{"A", "B", "C", "D", "F"} {
+	for _, name := range []string{"A", "B", "C", "D", "F", "T1", "T11"} {
 		vs := poolVersions(name)
 		switch r.Intn(5) {
 		case 0: // everything
@@ -393,7 +396,7 @@ func genHistory(r *prng.Rand, cat *model.Catalog, binary bool) []ctxEvent {
 		case k <= 2: // replacing table
 			var d model.LSTDecl
 			for j := r.Intn(4); j > 0; j-- {
-				name := []string{"A", "B", "C", "D", "E", "F", "F"}[r.Intn(7)]
+				name := []string{"A", "B", "C", "D", "E", "F", "F", "T1", "T11"}[r.Intn(9)]
 				if r.Chance(1, 12) {
 					// import clauses the specification says are ignored
 					name = []string{"$ion", ""}[r.Intn(2)]
@@ -497,7 +500,14 @@ func (s context) exec(c *Ctx, cs ctxCase) *expectation {
 	if cs.Binary {
 		out = render.Binary(ex.items, render.BinOpts{})
 	} else {
-		out = render.Text(ex.items, render.TextOpts{})
+		// canonical spelling, except that symbol identifiers get leading zeros now and then ($007 is ID 7)
+		th := uint64(len(cs.Events))*1099511628211 + 7
+		for _, ev := range cs.Events {
+			if ev.V != nil {
+				th = (th ^ uint64(ev.V.Size())) * 1099511628211
+			}
+		}
+		out = render.Text(ex.items, render.TextOpts{R: prng.New(th), SIDZeros: true, Dense: true})
 	}
 	want := drive.ModelLines(ex.want)
 	rc := drive.ReadCase{Data: out.Bytes, Plan: cs.Plan, Prog: drive.Full, Catalog: cs.Catalog, SimCatalog: cs.SimCatalog, KeepMaxID: true}
